@@ -1,6 +1,9 @@
 package main
 
-import "fmt"
+import (
+	"fmt"
+	"strings"
+)
 
 // ---------- value generators ----------
 
@@ -162,4 +165,63 @@ func (it Item) get(name string) (AV, bool) {
 		}
 	}
 	return AV{}, false
+}
+
+// twinNumeral: another way to write the same number (DynamoDB numbers are values, not texts)
+func twinNumeral(r *Rng, t []byte) []byte {
+	s := string(t)
+	switch {
+	case s == "0":
+		return []byte(pick(r, []string{"-0", "0.0", "-0.0", "0e0", "00"}))
+	case s == "-0":
+		return []byte(pick(r, []string{"0", "0.0", "-0.0"}))
+	case !strings.ContainsAny(s, ".eE"):
+		neg := strings.HasPrefix(s, "-")
+		switch r.Intn(3) {
+		case 0:
+			return []byte(s + ".0")
+		case 1:
+			return []byte(s + "e0")
+		default:
+			if neg {
+				return []byte("-0" + s[1:])
+			}
+			return []byte("0" + s)
+		}
+	case strings.Contains(s, ".") && !strings.ContainsAny(s, "eE"):
+		return []byte(s + "0")
+	}
+	return t
+}
+
+// twinOf: the same value written differently — numerals respelt, the elements of sets and the
+// entries of maps in another order, recursively
+func twinOf(r *Rng, v AV) AV {
+	switch v.T {
+	case "N":
+		return AV{T: "N", V: twinNumeral(r, v.V)}
+	case "SS", "BS", "NS":
+		out := AV{T: v.T}
+		for _, i := range r.Perm(len(v.Set)) {
+			e := v.Set[i]
+			if v.T == "NS" && r.Chance(50) {
+				e = twinNumeral(r, e)
+			}
+			out.Set = append(out.Set, e)
+		}
+		return out
+	case "L":
+		out := AV{T: "L", L: []AV{}}
+		for _, e := range v.L {
+			out.L = append(out.L, twinOf(r, e))
+		}
+		return out
+	case "M":
+		out := AV{T: "M", M: []KV{}}
+		for _, i := range r.Perm(len(v.M)) {
+			out.M = append(out.M, KV{v.M[i].K, twinOf(r, v.M[i].V)})
+		}
+		return out
+	}
+	return v
 }
